@@ -89,7 +89,7 @@ func StartProc(o ProcOpts) (*Proc, error) {
 		return nil, err
 	}
 	go func() { p.exit = p.cmd.Wait(); close(p.done) }()
-	c, err := Dial(o.Port)
+	c, err := DialWithin(o.Port, 20*time.Second)
 	if err != nil {
 		p.Kill()
 		return nil, fmt.Errorf("subprocess server did not come up: %v; stderr: %s", err, tail(p.stderr.String(), 2000))
